@@ -605,6 +605,7 @@ func (c *Conn) handle(hdr, body, raw []byte) bool {
 		if strings.Contains(uq, "FROM SYSTEM.LOCAL") || strings.Contains(uq, "FROM SYSTEM.PEERS") {
 			be.mu.Lock()
 			rec.Kind = "system"
+			rec.Token = token
 			c.logRec(rec)
 			res := be.systemRows(c, strings.Contains(uq, "FROM SYSTEM.LOCAL"))
 			be.mu.Unlock()
